@@ -61,6 +61,9 @@ fn profile() -> Profile {
         payload_max: 10,
         topic_max: 4,
         end_forget_pct: 0,
+        // time passes between operations (identically in all twins): keep-alive traffic interleaves
+        keepalive: vec![0, 0, 4, 30],
+        w_advance: 2,
         ..Profile::default()
     }
 }
@@ -70,6 +73,20 @@ pub fn strategy() -> BoxedStrategy<Input> {
     (cgen::case(&p), prop::collection::vec(any::<u16>(), 8))
         .prop_map(|(mut case, sel)| {
             for cs in case.conns.iter_mut() {
+                // time may pass between operations, but never 5 s with inbound data left unread:
+                // otherwise a run whose cancelled poll read less than its twin's would (correctly)
+                // hit the keep-alive timeout before it reads the PINGRESP that is already there
+                let mut timed = Vec::new();
+                for st in cs.steps.drain(..) {
+                    match st {
+                        Step::Advance { ms } => {
+                            timed.push(Step::Advance { ms: ms.min(4000) });
+                            timed.push(Step::PollIdle { max: 30 });
+                        }
+                        other => timed.push(other),
+                    }
+                }
+                cs.steps = timed;
                 // keep well below the local in-flight limits so that acceptance never depends on
                 // when an acknowledgement happens to be consumed
                 let mut heavy = 0;
